@@ -561,7 +561,6 @@ class Builder:
 		version_width = rng.choice([1, 1, 2])
 		family.enum = twin_of.enum if twin_of else self.add_enum(count=rng.randrange(6, 9), bitwise=False, size=rng.choice([1, 2, 2, 4]))
 		family.version_width = twin_of.version_width if twin_of else version_width
-		header_groups = []
 		disc_lines = {}
 		for member, _, kind in family.discriminators:
 			disc_lines[member] = Line(f'{member} = {family.enum[0]}' if kind == 'enum' else f'{member} = uint{8 * family.version_width}')
@@ -628,7 +627,7 @@ class Builder:
 		made = []
 		forced = list(force_bodies)
 		tails = list(tails)
-		for index in range(count):
+		for _ in range(count):
 			while True:
 				enum_value = rng.choice(main.enum[2])[0]
 				version = rng.randrange(1, 4)
@@ -791,7 +790,6 @@ def generate_once(rng, index, small=False, forced=4):
 		force_bodies = [['union']] if 'union' in features and not receipts_unaligned else []
 		builder.add_children(families, 2 if small else rng.randrange(2, 4), forms, force_bodies)
 		element_family = symbol_twin or symbol_family
-		fill_struct = None
 		if 'aggregate' in features:
 			# AggregateTransactionBody style: byte-sized aligned array of an abstract parent, then (optionally) a fill array of a plain struct
 			fill_struct = builder.add_plain_struct(force=[rng.choice(['alias', 'int', 'bytes', 'struct'])], aligned=rng.randrange(2) == 1, members=rng.randrange(1, 4))
